@@ -163,13 +163,13 @@ def run(F, ck, tier):
 class _Sub:
     """records C04-style obligations under another rule id"""
     def __init__(self, ck, rule):
-        self.ck, self.rule = ck, rule
+        self.ck, self.rid = ck, rule
 
     def ob(self, rule, key, ok, detail='', loc=None):
-        return self.ck.ob(self.rule, rule + ':' + key, ok, detail, loc)
+        return self.ck.ob(self.rid, rule + ':' + key, ok, detail, loc)
 
     def floor(self, rule, what, count, floor):
-        return self.ck.floor(self.rule, what, count, floor)
+        return self.ck.floor(self.rid, what, count, floor)
 
     def rule(self, *a):
         pass
